@@ -155,6 +155,11 @@ def c01_curated():
         rule(H("employee", x), Cl("hired", x)),
         rule(H("mentor", y), Cl("employee", y), Cl("senior", y)),
         rule(H("employee", z_), Cl("employee", x), Cl("mentor", y), Cl("referral", x, y, z_))]))
+    # two heads of one rule on the same relation that coincide for some bindings (x == y)
+    P.append(Program("multihead_same_rel", [R("edge", I, I), R("conn", I, I), R("reach", I, I)], [
+        rule([H("conn", x, y), H("conn", y, x)], Cl("edge", x, y)),
+        rule([H("reach", x, z_), H("reach", z_, x), H("reach", x, x)], Cl("conn", x, y), Cl("reach", y, z_)),
+        rule(H("reach", x, y), Cl("conn", x, y))]))
     P.append(Program("arity3", [R("t", I, I, I), R("s", I, I), R("u", I, I, I)], [
         rule(H("u", x, y, z_), Cl("t", x, y, z_)),
         rule(H("u", x, z_, y), Cl("u", x, y, z_), Cl("s", y, z_)),
@@ -546,6 +551,17 @@ def c08_curated():
         rule(H("res", V("v"), V("o")), Cl("src", V("v")), MacroCall("scaled", [V("v"), V("o")])),
         rule(H("res2", V("v"), V("p"), V("q")), Cl("res", V("v"), V("o")), MacroCall("scaled", [V("o"), V("p")]), MacroCall("scaled", [V("p"), V("q")]))],
         macros=[scaled]))
+    # an `if let` expression in a macro body whose pattern re-binds a macro-local's spelling: the else branch reads
+    # the macro-local, the then branch the pattern variable; the call site has a variable of the same spelling
+    pick = MacroDef("pick", [("o", "expr"), ("r", "ident")], [
+        Cl("dflt", V("v")),
+        Let(PV("r"), IfLetEx(PC("Some", PV("v")), V("o"), V("v"), Bin("%", Bin("+", V("v"), C(1)), C(3))))])
+    P.append(Program("macro_iflet_else", [R("inp", I, "Option<i32>"), R("dflt", I), R("out", I, I)], [
+        rule(H("out", V("v"), V("r")), Cl("inp", V("v"), V("o")), MacroCall("pick", [V("o"), V("r")]))],
+        macros=[pick]))
+    P.append(Program("macro_iflet_else_nocapture", [R("inp", I, "Option<i32>"), R("dflt", I), R("out2", I, I)], [
+        rule(H("out2", V("r"), V("w")), Cl("inp", V("w"), V("o")), MacroCall("pick", [V("o"), V("r")]), Cl("dflt", V("w")))],
+        macros=[pick]))
     # call-site variables spelled like gensym outputs / macro-local names
     loc = MacroDef("loc", [("a", "ident")], [Cl("e", V("a"), V("x_")), Cl("e", V("x_"), V("x__")), Cl("g", V("x__"), _)])
     P.append(Program("macro_name_clash", [R("e", I, I), R("g", I, I), R("r", I, I), R("r2", I, I)], [
@@ -724,6 +740,18 @@ def c09_variants():
     q = _clone_prog(b, "tc__redecl")
     q.rels = [Rel("edge", [I, I], init="[(0, 1), (0, 2)].into_iter().collect()", init_rows=[(0, 1), (0, 2)]), Rel("path", [I, I])] + \
         [Rel("edge", [I, I], init="[(1, 2)].into_iter().collect()", init_rows=[(1, 2)]), Rel("path", [I, I])]
+    q.relmap = {r.name: r for r in q.rels}
+    out.append(q)
+    # a relation declared inside the included source AND re-declared by the includer after the include: the
+    # later declaration (the includer's) wins, so the source must be pasted exactly where it is included
+    q = _clone_prog(b, "tc__inc_redecl", include={"pos": "first", "rels": [], "rel_idx": [0], "rules": [0]})
+    q.rels = [Rel("edge", [I, I], init="[(0, 1), (0, 2)].into_iter().collect()", init_rows=[(0, 1), (0, 2)]), Rel("path", [I, I]),
+              Rel("edge", [I, I], init="[(1, 2)].into_iter().collect()", init_rows=[(1, 2)])]
+    q.relmap = {r.name: r for r in q.rels}
+    out.append(q)
+    q = _clone_prog(b, "tc__inc_redecl_last", include={"pos": "last", "rels": [], "rel_idx": [2], "rules": [1]})
+    q.rels = [Rel("edge", [I, I], init="[(0, 1), (0, 2)].into_iter().collect()", init_rows=[(0, 1), (0, 2)]), Rel("path", [I, I]),
+              Rel("edge", [I, I], init="[(1, 2)].into_iter().collect()", init_rows=[(1, 2)])]
     q.relmap = {r.name: r for r in q.rels}
     out.append(q)
     # ascent_run! with captured locals (initialised relations and a captured flag)
